@@ -7,6 +7,7 @@ CONSTANTS
   SingleCounts = {1, 7, 9}
   HistSites = {2, 3}
   RotStep = 5
+  Hist16 = FALSE
   Emit = TRUE
   Strict = FALSE
 INVARIANT CInv_TypeOK
